@@ -601,6 +601,11 @@ def main(argv=None):
     ap.add_argument("--replay")
     ap.add_argument("--seed", type=int, default=None)
     a = ap.parse_args(argv)
+    for stream in (sys.stdout, sys.stderr):     # messages may quote text that cannot be encoded (lone surrogates)
+        try:
+            stream.reconfigure(errors="backslashreplace")
+        except Exception:
+            pass
     if os.environ.get("PYTHONHASHSEED") != "0":
         env = dict(os.environ, PYTHONHASHSEED="0")
         os.execve(sys.executable, [sys.executable] + sys.argv, env)
